@@ -242,7 +242,7 @@ def check_entries(ctx, w):
     ctx.ob('I-STRIDE', g.construct, 'count = sh_size // 8', tr2.get('self._num_entry') == [('=', expr.spec_nf('sh_size // EHABI_INDEX_ENTRY_SIZE'))], got=tr2.get('self._num_entry'))
     # decision tree: every returning path as (conditions, constructor)
     got = []
-    for conds, ret, p in paths.returns_with_conds(f.node):
+    for conds, ret, p in paths.returns_with_conds(f.node, asserts=False):
         cs = tuple(expr.CP(expr.cond_str(t, env), pol) for t, pol in conds if 'num_entry' not in U(t))
         ctor = dispatch.callee_name(ret) if isinstance(ret, ast.Call) else U(ret)
         got.append((cs, ctor))
@@ -418,10 +418,72 @@ def check_ring(ctx, w):
            msg='the operand ends with the first byte whose bit 7 is clear; testing the NEXT byte (or the opposite polarity) mis-sizes the instruction',
            line=g.node.lineno)
     tr = expr.assign_trace(g.node, genv)
-    ctx.ob('G-RING', g.construct, 'value: 7 bits per byte, least significant group first', tr.get('value') == [('=', '0'), ('=', expr.spec_nf('(value << 7) + (b & 0x7F)'))] and
-           'for b in reversed(uleb_buffer):' in U(g.node), got=tr.get('value'))
-    rets = [U(r.value) for r in expr.returns_of(g.node)]
-    ctx.ob('G-RING', g.construct, 'vsp += 0x204 + (value << 2)', rets == ["'vsp = vsp + %u' % (516 + (value << 2))"], got=rets)
+    poly = _uleb_value_poly(g.node)
+    want_poly = expr.spec_nf('(B0 & 127) + 128 * (B1 & 127) + 16384 * (B2 & 127)')
+    ctx.ob('G-RING', g.construct, 'value: 7 bits per byte, least significant group first', poly == want_poly, got=poly, expected=want_poly,
+           msg='the operand value over a three-byte buffer is not B0&127 + (B1&127)<<7 + (B2&127)<<14')
+    rets = [r.value for r in expr.returns_of(g.node)]
+    ok_r = len(rets) == 1 and any(expr.nfs(x, expr.FEnv()) == expr.spec_nf('516 + (value << 2)') for x in ast.walk(rets[0]) if isinstance(x, ast.BinOp)) and \
+        ('vsp = vsp + ' in U(rets[0]))
+    ctx.ob('G-RING', g.construct, 'vsp += 0x204 + (value << 2)', ok_r, got=[U(r) for r in rets])
+
+
+def _uleb_value_poly(fnode):
+    """The operand value as a polynomial over a symbolic three-byte buffer [B0, B1, B2], from either spelling of the fold:
+    an accumulator loop over the buffer (forwards or reversed) or a sum over enumerate(buffer).  Shifts by constants are
+    multiplications in the normal form, so both spellings of the same fold give the same polynomial."""
+    import copy as _copy
+    names = ['B0', 'B1', 'B2']
+
+    class Sub(ast.NodeTransformer):
+        def __init__(s, mp):
+            s.mp = mp
+
+        def visit_Name(s, n):
+            if isinstance(n.ctx, ast.Load) and n.id in s.mp:
+                return _copy.deepcopy(s.mp[n.id])
+            return n
+    for st in ast.walk(fnode):
+        # value = sum(<elt> for i, b in enumerate(buffer))
+        if isinstance(st, ast.Assign) and U(st.targets[0]) == 'value' and isinstance(st.value, ast.Call) and U(st.value.func) == 'sum' and st.value.args and \
+                isinstance(st.value.args[0], (ast.GeneratorExp, ast.ListComp)) and len(st.value.args[0].generators) == 1:
+            gen = st.value.args[0].generators[0]
+            if isinstance(gen.iter, ast.Call) and U(gen.iter.func) == 'enumerate' and isinstance(gen.target, ast.Tuple) and len(gen.target.elts) == 2:
+                iv, bv = gen.target.elts[0].id, gen.target.elts[1].id
+                total = None
+                for i, nm in enumerate(names):
+                    e = Sub({iv: ast.Constant(value=i), bv: ast.Name(id=nm, ctx=ast.Load())}).visit(_copy.deepcopy(st.value.args[0].elt))
+                    total = e if total is None else ast.BinOp(left=total, op=ast.Add(), right=e)
+                ast.fix_missing_locations(total)
+                return expr.nfs(_fold_consts(total), expr.FEnv())
+    for lp in ast.walk(fnode):
+        if isinstance(lp, ast.For) and isinstance(lp.target, ast.Name) and any(isinstance(x, ast.Name) and x.id == 'value' and isinstance(x.ctx, ast.Store) for x in ast.walk(lp)):
+            it = U(lp.iter)
+            order = list(reversed(names)) if ('reversed(' in it or '[::-1]' in it) else names
+            cur = ast.Constant(value=0)
+            for nm in order:
+                for b in lp.body:
+                    if isinstance(b, ast.Assign) and U(b.targets[0]) == 'value':
+                        cur = Sub({'value': cur, lp.target.id: ast.Name(id=nm, ctx=ast.Load())}).visit(_copy.deepcopy(b.value))
+                    elif isinstance(b, ast.AugAssign) and U(b.target) == 'value':
+                        cur = ast.BinOp(left=cur, op=b.op, right=Sub({'value': cur, lp.target.id: ast.Name(id=nm, ctx=ast.Load())}).visit(_copy.deepcopy(b.value)))
+            ast.fix_missing_locations(cur)
+            return expr.nfs(_fold_consts(cur), expr.FEnv())
+    return None
+
+
+def _fold_consts(e):
+    """7 * 2 -> 14 inside shift amounts, so that the normal form sees a constant shift"""
+    class F(ast.NodeTransformer):
+        def visit_BinOp(s, n):
+            s.generic_visit(n)
+            if isinstance(n.left, ast.Constant) and isinstance(n.right, ast.Constant) and isinstance(n.left.value, int) and isinstance(n.right.value, int):
+                if isinstance(n.op, ast.Mult):
+                    return ast.copy_location(ast.Constant(value=n.left.value * n.right.value), n)
+                if isinstance(n.op, ast.Add):
+                    return ast.copy_location(ast.Constant(value=n.left.value + n.right.value), n)
+            return n
+    return F().visit(e)
 
 
 MUTANTS = [
